@@ -92,12 +92,13 @@ def work(args):
     out = []
     for i in range(n):
         x, C, cls = make_case(G, idx * 5 + i)
-        try:
-            xo, co = interlib.build_pair(impl, x, C)      # one case in six: an operand arrives by a primed in-place move
-            r = core.guarded(impl.call, lambda a, b: a in b, xo, co)
-        except Exception as e:
-            r = ('ctor-exc', type(e).__name__)
-        out.append((x, C, cls, r))
+        for x_, C_, cls_ in [(x, C, cls)] + [(a_, b_, cls + '+hash-twin') for a_, b_ in interlib.twin_followups(x, C)]:
+            try:
+                xo, co = interlib.build_pair(impl, x_, C_)      # one case in six: an operand arrives by a primed in-place move
+                r = core.guarded(impl.call, lambda a, b: a in b, xo, co)
+            except Exception as e:
+                r = ('ctor-exc', type(e).__name__)
+            out.append((x_, C_, cls_, r))
     return out
 
 
@@ -151,6 +152,7 @@ def replay(ctx, case):
     from .. import impl
     c = case['case']
     x, C = gen.from_jsonable(c['x']), gen.from_jsonable(c['c'])
+    interlib.replay_preamble(impl, x, C)
     xo, co = interlib.build_pair(impl, x, C)
     r = impl.call(lambda a, b: a in b, xo, co)
     t = truth(x, C)
